@@ -829,7 +829,17 @@ SEPARATOR_CORPUS = ['SELECT f(, 1)', 'SELECT f(,)', 'SELECT f(, 1, 2)', 'SELECT 
                     'SELECT (1, 2,)', 'SELECT f(g(, 1), h(,))', 'SELECT NULL(, FALSE, 1)', 'SELECT count(, *)', 'SELECT f(, *)']
 
 
+# statements that differ only in white space that matters (inside a string, at the end of a comment), one after the
+# other; aliases and identifiers in upper case
+SEQUENCE_CORPUS = ["SELECT 'Cafe  Mogador'", "SELECT 'Cafe Mogador'", "SELECT 'Cafe   Mogador'", 'SELECT a ; pick a\n, b', 'SELECT a ; pick a , b',
+                   "SELECT 'a\tb', 'a b'", "SELECT 'a b', 'a\tb'", 'SELECT a AS Total, B AS xY FROM #T ORDER BY Total', 'SELECT a AS total FROM #t',
+                   'SELECT A AS TOTAL FROM #T', 'SELECT f(X) AS F_x, Sum(y) AS S GROUP BY F_x']
+
+
 def run(ctx):
+    for text in SEQUENCE_CORPUS:
+        ctx.count('sequence-corpus')
+        check_text(ctx, 'sequence', text)
     for text in SEPARATOR_CORPUS:
         ctx.count('separator-corpus')
         check_text(ctx, 'separators', text)
